@@ -151,4 +151,25 @@ Section Layout.
       simpl in HS; try contradiction; simpl; auto.
     destruct HS as (_ & _ & K & _). repeat split; try reflexivity. exact K.
   Qed.
+  (* the hypothesis on x discharged for a literal token: "w" ~ y with additional blanks after w *)
+  Lemma drop_prefix_app : forall x t, drop_prefix x (x ++ t) = Some t.
+  Proof. induction x; intro t; simpl; [reflexivity|]. rewrite Ascii.eqb_refl. apply IHx. Qed.
+
+  Theorem seq_layout_literal : forall f la lit y p t b k o,
+      all_in ws b = true -> (0 < p + slen lit)%N ->
+      S (List.length cs) + String.length (b ++ t) < f ->
+      layout_equiv (slen b) o (mkst p (lit ++ t) k o) (mkst p (lit ++ b ++ t) k o)
+                   (run G (S f) false NonAtomic la (Seq (Str lit) y) (mkst p (lit ++ t) k o))
+                   (run G (S f) false NonAtomic la (Seq (Str lit) y) (mkst p (lit ++ b ++ t) k o)).
+  Proof.
+    intros f la lit y p t b k o Hb Hp Hf.
+    destruct f as [|f]; [lia|].
+    apply (seq_layout (S f) la (Str lit) y (mkst p (lit ++ t) k o) (mkst p (lit ++ b ++ t) k o)
+                      (mkst (p + slen lit) t k o) b).
+    - rewrite run_S. cbv zeta. unfold match_string. cbn [rest]. rewrite drop_prefix_app. reflexivity.
+    - rewrite run_S. cbv zeta. unfold match_string. cbn [rest]. rewrite drop_prefix_app. reflexivity.
+    - exact Hb.
+    - exact Hp.
+    - cbn [rest]. exact Hf.
+  Qed.
 End Layout.
